@@ -675,6 +675,12 @@ func (v *vc) execInstr(fr *frame, st *state, instr ssa.Instruction) bool {
 	case *ssa.Range:
 		fr.vals[in] = "0"
 		fr.ranges()[in] = in.X
+		if mt, ok := in.X.Type().Underlying().(*types.Map); ok {
+			// the set of keys already produced by this iteration: empty
+			k := v.rangeSeenKey(fr, in)
+			v.localSorts[k] = fmt.Sprintf("(Array %s Bool)", v.sc.sortOf(mt.Key()))
+			st.locals[k] = fmt.Sprintf("((as const %s) false)", v.localSorts[k])
+		}
 	case *ssa.Next:
 		v.next(fr, st, in)
 	case *ssa.Call:
@@ -1343,6 +1349,18 @@ func (v *vc) next(fr *frame, st *state, in *ssa.Next) {
 	hv, hd, _ := v.mapHeaps(mt)
 	k := v.havoc("next.k", mt.Key(), st)
 	v.fact(st, imp(okc, and(fmt.Sprintf("(not (= %s 0))", m), sel(sel(v.getHeap(st, hd), m), k))))
+	// every key is produced at most once; when the iteration ends every key present has been produced
+	// (the latter only if the loop does not add keys to maps of this type)
+	sk := v.rangeSeenKey(fr, rng)
+	if seen, ok := st.locals[sk]; ok {
+		v.fact(st, imp(okc, not(sel(seen, k))))
+		if !v.loopWritesHeap(fr, in, hd) {
+			ks := v.sc.sortOf(mt.Key())
+			v.fact(st, imp(not(okc), fmt.Sprintf("(forall ((kk %s)) (! (=> %s (select %s kk)) :pattern ((select %s kk))))", ks,
+				and(fmt.Sprintf("(not (= %s 0))", m), fmt.Sprintf("(select (select %s %s) kk)", v.getHeap(st, hd), m)), seen, seen)))
+		}
+		st.locals[sk] = v.define("seen", v.localSorts[sk], ite(okc, sto(seen, k, "true"), seen))
+	}
 	val := v.define("next.v", v.sc.sortOf(mt.Elem()), sel(sel(v.getHeap(st, hv), m), k))
 	if inv := v.sc.typeInv(val, mt.Elem()); inv != "" {
 		v.fact(st, inv)
